@@ -389,6 +389,14 @@ func Run(s *simrt.Sim, a *harness.Args, r *harness.Result) {
 	for w.crashed && len(s.Violations()) == 0 {
 		w.crashed = false
 		delay := []time.Duration{0, time.Second, time.Hour, 48 * time.Hour}[s.T.Choose("restart", 4)]
+		if a.Prop == "C02" && s.T.Choose("restart", 2) == 1 {
+			// the recovery run under a random-walk schedule: whatever recovery
+			// starts side by side (two entries for one message, say) really
+			// overlaps. Drawn after the stop, so the operation numbering of the
+			// crash-free base run is not disturbed.
+			s.PreemptBudget = -1
+			s.Stat("sched_random_walk_recovery")
+		}
 		if crash2 > 0 && w.crashes == 1 {
 			w.fs.CrashAt = w.fs.OpN + crash2
 		}
